@@ -26,61 +26,8 @@ def C(e, fn):
     return canon(e, ReachingDefs(fn), None, [a.arg for a in fn.args.args])
 
 
-def _sign_conds(conds, p):
-    """which of p > 0, p == 0, p < 0 the conditions (canonical text, polarity) admit; None when a condition is not a
-    comparison of p with zero"""
-    admit = {"pos", "zero", "neg"}
-    table = {"0 < P": {"pos"}, "P < 0": {"neg"}, "0 <= P": {"pos", "zero"}, "P <= 0": {"neg", "zero"}, "P == 0": {"zero"}, "0 == P": {"zero"}, "P != 0": {"pos", "neg"}, "0 != P": {"pos", "neg"}}
-    for t, pol in conds:
-        k = t.replace("0.0", "0").replace(p, "P")
-        if k not in table:
-            return None
-        admit &= table[k] if pol else ({"pos", "zero", "neg"} - table[k])
-    return admit
 
 
-def image_outcomes(mod, fn, p):
-    """[(sign of the factor, (canonical first arg, canonical second arg))] over every way the method constructs its
-    result: return per branch, locals assigned per branch, tuple unpacking, conditional expressions"""
-    from ..flowtools import alternatives, canon_guards
-
-    rd = ReachingDefs(fn)
-    params = [a.arg for a in fn.args.args]
-
-    def expand(e, at, depth=0):
-        if isinstance(e, ast.IfExp):
-            ct = canon(e.test, rd, at, params)
-            return [(v, c + [(ct, True)]) for v, c in expand(e.body, at, depth)] + [(v, c + [(ct, False)]) for v, c in expand(e.orelse, at, depth)]
-        if isinstance(e, ast.Name) and e.id not in params and depth < 3:
-            alts = alternatives(mod, fn, rd, e.id, at, params)
-            if alts and all(v is not None for v, _c in alts):
-                out = []
-                for v, c in alts:
-                    d = [x for x in rd.defs(e.id, at) if x.node is not None]
-                    out += [(v2, c + c2) for v2, c2 in expand(v, d[0].stmt if len(d) == 1 else at, depth + 1)] if len(d) == 1 else [(v, c)]
-                return out
-        return [(e, [])]
-
-    outs = []
-    for r in walk_no_nested(fn):
-        if not (isinstance(r, ast.Return) and r.value is not None):
-            continue
-        rg = [(t, pol) for t, pol, _n in canon_guards(mod, r, fn, rd, params)]
-        for v, c0 in expand(r.value, r):
-            if not (isinstance(v, ast.Call) and len(v.args) == 2 and not v.keywords):
-                outs.append((None, (norm(v), "")))
-                continue
-            for a0, c1 in expand(v.args[0], r):
-                for a1, c2 in expand(v.args[1], r):
-                    signs = _sign_conds(rg + c0 + c1 + c2, p)
-                    if signs is None:
-                        outs.append((None, (norm(a0), norm(a1))))
-                        continue
-                    at0 = rd.stmt_of(a0) or r
-                    at1 = rd.stmt_of(a1) or r
-                    for sgn in sorted(signs):
-                        outs.append((sgn, (canon(a0, rd, at0, params), canon(a1, rd, at1, params))))
-    return outs
 
 
 def ineq_set(e, atoms):
@@ -122,10 +69,58 @@ def ineq_set(e, atoms):
     return None
 
 
-def _ifexp_leaves(e):
-    if isinstance(e, ast.IfExp):
-        return _ifexp_leaves(e.body) + _ifexp_leaves(e.orelse)
-    return [e]
+def normalise_rule(fn):
+    """(ok,) for make_valid_orientation_interval(start, end): every loop shifts both parameters by the same multiple of
+    2pi, and the negated loop conditions give  end <= 2pi  and  start >= -2pi  (start <= end bounds the other two)"""
+    from .c04 import inequalities
+
+    ps = [a.arg for a in fn.args.args]
+    if len(ps) != 2:
+        return (False,)
+    s_, e_ = ps
+
+    def atoms(x):
+        t = norm(x)
+        if t == s_:
+            return "s"
+        if t == e_:
+            return "e"
+        if t in ("TWO_PI", "2 * math.pi", "2 * np.pi", "2.0 * math.pi", "2.0 * np.pi", "math.tau"):
+            return "T"
+        return None
+
+    loops = [n for n in fn.body if isinstance(n, ast.While)]
+    others = [n for n in fn.body if not isinstance(n, (ast.While, ast.Return)) and not (isinstance(n, ast.Expr) and isinstance(n.value, ast.Constant))]
+    if not loops or others:
+        raise AnalysisError("make_valid_orientation_interval is not a sequence of shifting loops: outside the analysed vocabulary")
+    exit_facts = set()
+    for lp in loops:
+        shifts = {}
+        for st in lp.body:
+            if isinstance(st, ast.AugAssign) and isinstance(st.target, ast.Name) and isinstance(st.op, (ast.Add, ast.Sub)) and atoms(st.value) == "T":
+                shifts[st.target.id] = "+" if isinstance(st.op, ast.Add) else "-"
+            elif isinstance(st, ast.Assign) and len(st.targets) == 1 and isinstance(st.targets[0], ast.Name) and isinstance(st.value, ast.BinOp) and isinstance(st.value.op, (ast.Add, ast.Sub)) and norm(st.value.left) == st.targets[0].id and atoms(st.value.right) == "T":
+                shifts[st.targets[0].id] = "+" if isinstance(st.value.op, ast.Add) else "-"
+            else:
+                raise AnalysisError("make_valid_orientation_interval: loop statement %s outside the analysed vocabulary" % norm(st)[:60])
+        if set(shifts) != {s_, e_} or len(set(shifts.values())) != 1:
+            return (False,)
+        conds = lp.test.values if isinstance(lp.test, ast.BoolOp) and isinstance(lp.test.op, ast.Or) else [lp.test]
+        if isinstance(lp.test, ast.BoolOp) and isinstance(lp.test.op, ast.And):
+            raise AnalysisError("make_valid_orientation_interval: conjunctive loop condition outside the analysed vocabulary")
+        for c in conds:
+            neg = ineq_set(ast.UnaryOp(op=ast.Not(), operand=c), atoms)
+            if neg is None:
+                raise AnalysisError("make_valid_orientation_interval: loop condition %s outside the analysed vocabulary" % norm(c))
+            exit_facts |= neg
+    rets = [n for n in fn.body if isinstance(n, ast.Return)]
+    if len(rets) != 1 or not isinstance(rets[0].value, ast.Tuple) or [norm(x) for x in rets[0].value.elts] != [s_, e_]:
+        return (False,)
+    need_hi = (frozenset({"T": 1, "e": -1}.items()), False)  # 2pi - end >= 0
+    need_lo = (frozenset({"s": 1, "T": 1}.items()), False)  # start + 2pi >= 0
+    return (need_hi in exit_facts and need_lo in exit_facts,)
+
+
 
 
 def numeric_isinstance_ok(test):
@@ -141,7 +136,7 @@ def run(repo, res, tier):
     res.rule("RANGE", "AngleInterval containment: asserts proved, offsets non-negative, bound reaches 2pi (interval abstract interpretation)", 4)
     res.rule("DISPATCH", "number/interval dispatch admits int and float", 2)
     res.rule("CLOSED", "Interval predicates are closed and compare the right operands", 5)
-    res.rule("IMAGE", "interval arithmetic yields the image set with start <= end through the checking constructor", 8)
+    res.rule("IMAGE", "interval arithmetic yields the image set with start <= end through the checking constructor", 5)
     res.rule("REJECT", "start > end is rejected; AngleInterval normalises and bounds the length", 5)
     res.rule("SUBSET", "AngleInterval.contains(interval) compares start offset + argument length with the own length", 1)
     mod = repo.mod(U)
@@ -318,61 +313,192 @@ def run(repo, res, tier):
             ok = a0 in ("max(self.start, %s.start)" % p, "max(%s.start, self.start)" % p) and a1 in ("min(self.end, %s.end)" % p, "min(%s.end, self.end)" % p)
     res.check("CLOSED", "Interval.intersection = [max(starts), min(ends)] unless disjoint", ok, mod, fn, "Interval.intersection", "the intersection is not exactly the set intersection", qualname="Interval.intersection")
 
-    # ------------------------------------------------------------- IMAGE
-    for mn, op in (("__mul__", "*"), ("__truediv__", "/")):
-        fn = iv.methods[mn]
-        p = fn.args.args[1].arg
-        outs = image_outcomes(mod, fn, p)
-        keep = ("self.start %s %s" % (op, p), "self.end %s %s" % (op, p))
-        swap = (keep[1], keep[0])
-        ok = bool(outs) and {s for s, _a in outs} >= {"pos", "neg"}
-        for sign, args in outs:
-            ok = ok and ((sign == "pos" and args == keep) or (sign == "neg" and args == swap) or (sign == "zero" and args in (keep, swap)))
-        res.check("IMAGE", "Interval.%s keeps the order for positive and swaps the ends for non-positive factors" % mn, ok, mod, fn, "Interval.%s" % mn, "scaling by a negative number yields start > end (rejected by the constructor) or the wrong set", qualname="Interval." + mn)
-    for mn, want in (("__add__", "type(self)(self.start + {p}, self.end + {p})"), ("__sub__", "type(self)(self.start - {p}, self.end - {p})")):
-        fn = iv.methods[mn]
-        p = fn.args.args[1].arg
-        rets = [n for n in walk_no_nested(fn) if isinstance(n, ast.Return)]
-        res.check("IMAGE", "Interval.%s shifts both ends" % mn, len(rets) == 1 and C(rets[0].value, fn) == want.format(p=p), mod, fn, "Interval.%s" % mn, "shifting does not move both end points by the same amount", qualname="Interval." + mn)
-    fn = iv.methods["__round__"]
-    rets = [n for n in walk_no_nested(fn) if isinstance(n, ast.Return)]
-    pn = fn.args.args[1].arg
-    res.check("IMAGE", "Interval.__round__ rounds both ends", len(rets) == 1 and C(rets[0].value, fn) == "type(self)(round(self.start, %s), round(self.end, %s))" % (pn, pn), mod, fn, "Interval.__round__", "rounding does not round both end points", qualname="Interval.__round__")
-    # every arithmetic method constructs through the constructor
-    for mn in ("__mul__", "__truediv__", "__add__", "__sub__", "__round__"):
-        fn = iv.methods[mn]
-        rets = [n for n in walk_no_nested(fn) if isinstance(n, ast.Return)]
-        ok = bool(rets) and all(isinstance(v, ast.Call) and norm(v.func) in ("type(self)", "Interval", "self.__class__") for r in rets for v in _ifexp_leaves(r.value))
-        res.check("IMAGE", "Interval.%s constructs its result through the constructor" % mn, ok, mod, fn, "Interval.%s result construction" % mn, "the result bypasses the constructor, so start <= end (and the angle range) is not re-checked", qualname="Interval." + mn)
-    # AngleInterval must not override arithmetic with unchecked versions
-    for mn in ("__add__", "__sub__"):
-        if mn in av.methods:
-            fn = av.methods[mn]
-            rets = [n for n in walk_no_nested(fn) if isinstance(n, ast.Return)]
-            ok = bool(rets) and all(isinstance(r.value, ast.Call) and norm(r.value.func) in ("type(self)", "AngleInterval", "self.__class__") for r in rets)
-            res.check("IMAGE", "AngleInterval.%s constructs through the constructor" % mn, ok, mod, fn, "AngleInterval.%s" % mn, "shifted angle intervals are not normalised", qualname="AngleInterval." + mn)
+    # ------------------------------------------------------------- IMAGE  (abstract evaluation, sa/strdom.py)
+    # The arithmetic methods are evaluated on an interval whose ends are atoms; the result must be a construction
+    # through the class with the expected terms as arguments.  Helpers, lambdas, locals, unpacking, conditional
+    # expressions and per-branch returns are all just evaluated.
+    from ..strdom import ClassRef, Ctor, Ev, FuncV, Obj, Sym, Term, Undecided, _Raise, same, show
 
-    # ------------------------------------------------------------- REJECT
+    def case_oracle(vals, extra=None):
+        """decides comparisons between atoms (and with 0) by a representative valuation of the sign / order case;
+        anything else stays undecided, so code that tests something the case does not determine is refused"""
+
+        def num(v):
+            if isinstance(v, Sym) and v.name in vals:
+                return vals[v.name]
+            if isinstance(v, (int, float)) and not isinstance(v, bool) and v == 0:
+                return 0
+            return None
+
+        def oracle(kind, x, y):
+            if extra is not None:
+                r = extra(kind, x, y)
+                if r is not None:
+                    return r
+            if kind == "truth":
+                n = num(x)
+                return None if n is None else n != 0
+            n, m = num(x), num(y)
+            if n is None or m is None:
+                return None
+            return {"Lt": n < m, "LtE": n <= m, "Gt": n > m, "GtE": n >= m, "Eq": n == m, "NotEq": n != m}.get(kind)
+
+        return oracle
+
+    def fresh(cls, start=None, end=None):
+        o = Obj(cls, {})
+        if start is not None:
+            o.fields["_start"], o.fields["_end"] = start, end
+        return o
+
+    def evaluate(cls, mname, args, recv, vals=None, extra=None, stubs=None):
+        ev = Ev(repo)
+        ev.oracle = case_oracle(vals or {}, extra)
+        ev.stubs.update(stubs or {})
+        owner, fn = repo.find_method(cls, mname)
+        if fn is None:
+            raise AnalysisError("%s.%s missing" % (cls.name, mname))
+        return ev.call_fn(FuncV(fn, self_val=recv, cls=owner, mod=owner.mod), args, {}, fn), ev
+
+    S0, E0, O, N = Sym("start", "num"), Sym("end", "num"), Sym("other", "num"), Sym("ndigits", "num")
+
+    def constructed(r, cls):
+        return isinstance(r, Ctor) and r.name in (cls.name, "Interval") and set(r.args) == {"start", "end"}
+
     for cls in (iv, av):
-        for pname, cmp_ok in (("start", ("{v} <= self.end",)), ("end", ("{v} >= self.start", "self.start <= {v}"))):
-            _c, p = repo.find_prop(cls, pname)
-            if cls is av and _c is not av:
+        for mn, sym in (("__add__", "+"), ("__sub__", "-")):
+            fn = repo.find_method(cls, mn)[1]
+            try:
+                r, _ev = evaluate(cls, mn, [O], fresh(cls, S0, E0))
+                ok = constructed(r, cls) and same(r.args["start"], Term(sym, [S0, O])) and same(r.args["end"], Term(sym, [E0, O]))
+                got = show(r)
+            except _Raise as x:
+                ok, got = False, "raises %s" % x.what
+            if cls is iv or mn in av.methods:
+                res.check("IMAGE", "%s.%s shifts both ends: %s" % (cls.name, mn, got), ok, mod, fn, "%s.%s gives %s" % (cls.name, mn, got), "shifting does not move both end points by the same amount, or the result bypasses the checking constructor", qualname="%s.%s" % (cls.name, mn))
+    fn = iv.methods["__round__"]
+    try:
+        r, _ev = evaluate(iv, "__round__", [N], fresh(iv, S0, E0))
+        ok = constructed(r, iv) and same(r.args["start"], Term("round", [S0, N])) and same(r.args["end"], Term("round", [E0, N]))
+        got = show(r)
+    except _Raise as x:
+        ok, got = False, "raises %s" % x.what
+    res.check("IMAGE", "Interval.__round__ rounds both ends: %s" % got, ok, mod, fn, "Interval.__round__ gives %s" % got, "rounding does not round both end points, or the result bypasses the checking constructor", qualname="Interval.__round__")
+    for mn, sym in (("__mul__", "*"), ("__truediv__", "/")):
+        fn = iv.methods[mn]
+        bad = []
+        for sign, val in (("positive", 2), ("negative", -2), ("zero", 0)):
+            try:
+                r, _ev = evaluate(iv, mn, [O], fresh(iv, S0, E0), vals={"other": val})
+            except _Raise as x:
+                if sign != "zero":
+                    bad.append("%s factor: raises %s" % (sign, x.what))
                 continue
-            st = p["set"]
-            v = st.args.args[1].arg
-            asserts = [C(a.test, st) for a in walk_no_nested(st) if isinstance(a, ast.Assert)]
-            want = tuple(x.format(v=v) for x in cmp_ok) + (("%s <= self.end" % v,) if pname == "start" else ())
-            ok = any(a in want for a in asserts)
-            res.check("REJECT", "%s.%s setter asserts start <= end" % (cls.name, pname), ok, mod, st, "%s.%s setter asserts %s" % (cls.name, pname, asserts), "an interval with start > end can be created", qualname="%s.%s" % (cls.name, pname))
-    init = iv.methods["__init__"]
-    stores = [norm(n.targets[0]) for n in init.body if isinstance(n, ast.Assign)]
-    ok = "self.start" in stores and "self.end" in stores and stores.index("self.end") > stores.index("self.start")
-    res.check("REJECT", "Interval.__init__ assigns through the checking setters", ok, mod, init, "Interval.__init__ stores %s" % stores, "the constructor bypasses the start <= end check", qualname="Interval.__init__")
+            keep = constructed(r, iv) and same(r.args["start"], Term(sym, [S0, O])) and same(r.args["end"], Term(sym, [E0, O]))
+            swap = constructed(r, iv) and same(r.args["start"], Term(sym, [E0, O])) and same(r.args["end"], Term(sym, [S0, O]))
+            if not ((sign == "positive" and keep) or (sign == "negative" and swap) or (sign == "zero" and (keep or swap))):
+                bad.append("%s factor: %s" % (sign, show(r)))
+        res.check("IMAGE", "Interval.%s keeps the order for positive and swaps the ends for negative factors" % mn, not bad, mod, fn, "Interval.%s: %s" % (mn, "; ".join(bad)), "scaling by a negative number yields start > end (rejected by the constructor) or the wrong set, or the result bypasses the checking constructor", qualname="Interval." + mn)
+
+    # ------------------------------------------------------------- REJECT  (abstract evaluation)
+    ORDERS = [("both positive", 2, 1), ("positive / zero", 1, 0), ("positive / negative", 1, -1), ("zero / negative", 0, -1), ("both negative", -1, -2)]  # (label, larger, smaller)
+    VALID = ORDERS + [("equal and zero", 0, 0), ("equal and positive", 1, 1), ("equal and negative", -1, -1)]
+    X, LO, HI = Sym("value", "num"), Sym("start", "num"), Sym("end", "num")
+    for cls in (iv, av):
+        own = {k for k in ("start", "end") if repo.find_prop(cls, k)[0] is cls}
+        init = repo.find_method(cls, "__init__")[1]
+        if cls is iv:
+            # constructor: start > end must raise, start <= end must store both
+            bad = []
+            for label, big, small in ORDERS:
+                try:
+                    evaluate(cls, "__init__", [LO, HI], fresh(cls), vals={"start": big, "end": small})
+                    bad.append("start > end accepted (%s)" % label)
+                except _Raise:
+                    pass
+            for label, big, small in VALID:
+                o = fresh(cls)
+                try:
+                    evaluate(cls, "__init__", [LO, HI], o, vals={"start": small, "end": big})
+                    if not (same(o.fields.get("_start"), LO) and same(o.fields.get("_end"), HI)):
+                        bad.append("valid interval stored as %s, %s (%s)" % (show(o.fields.get("_start")), show(o.fields.get("_end")), label))
+                except _Raise as x:
+                    bad.append("valid interval rejected (%s): %s" % (label, x.what))
+            res.check("REJECT", "Interval(start, end) raises exactly when start > end (all sign cases)", not bad, mod, init, "Interval.__init__: %s" % "; ".join(bad[:4]), "an interval with start > end can be created, or a valid one is rejected or stored wrongly", qualname="Interval.__init__")
+        for pname in sorted(own):
+            st = repo.find_prop(cls, pname)[1]["set"]
+            bad = []
+            for label, big, small in ORDERS:
+                o = fresh(cls, LO, HI)
+                vals = {"start": small - 1, "end": small, "value": big} if pname == "start" else {"start": big, "end": big + 1, "value": small}
+                ev = Ev(repo)
+                ev.oracle = case_oracle(vals)
+                try:
+                    ev.call_fn(FuncV(st, self_val=o, cls=cls, mod=mod), [X], {}, st)
+                    bad.append("%s beyond the other end accepted (%s)" % (pname, label))
+                except _Raise:
+                    pass
+            for label, big, small in VALID:
+                o = fresh(cls, LO, HI)
+                vals = {"start": small - 1, "end": big, "value": small} if pname == "start" else {"start": small, "end": big + 1, "value": big}
+                ev = Ev(repo)
+                ev.oracle = case_oracle(vals)
+                try:
+                    ev.call_fn(FuncV(st, self_val=o, cls=cls, mod=mod), [X], {}, st)
+                    if not same(o.fields.get("_" + pname), X):
+                        bad.append("valid %s not stored (%s)" % (pname, label))
+                except _Raise as x:
+                    bad.append("valid %s rejected (%s): %s" % (pname, label, x.what))
+            res.check("REJECT", "%s.%s setter raises exactly when the order would be violated (all sign cases)" % (cls.name, pname), not bad, mod, st, "%s.%s setter: %s" % (cls.name, pname, "; ".join(bad[:4])), "an interval with start > end can be created through the setter, or a valid value is rejected", qualname="%s.%s" % (cls.name, pname))
+    # AngleInterval(start, end): normalise, bound the length, then the ordered store of the *normalised* values
     ainit = av.methods["__init__"]
-    body = [norm(s) for s in ainit.body if not (isinstance(s, ast.Expr) and isinstance(s.value, ast.Constant))]
-    has_norm = any("make_valid_orientation_interval(start, end)" in b for b in body)
-    asserts = [a for a in ainit.body if isinstance(a, ast.Assert)]
-    has_len = any(C(a.test, ainit) in ("end - start < TWO_PI", "end - start < 2 * math.pi", "end - start < 2 * np.pi") for a in asserts)
-    has_super = any("Interval.__init__(self, start, end)" in b or "super().__init__(start, end)" in b for b in body)
-    res.check("REJECT", "AngleInterval.__init__ normalises, bounds the length by 2pi and delegates", has_norm and has_len and has_super, mod, ainit, "AngleInterval.__init__ %s" % body, "angle intervals are not brought into [-2pi, 2pi], may span 2pi or more, or skip the start <= end check", qualname="AngleInterval.__init__")
+    NS, NE = Sym("normalised_start", "num"), Sym("normalised_end", "num")
+    norm_calls = []
+
+    def norm_stub(a):
+        norm_calls.append(a)
+        return TupV([NS, NE])
+
+    def length_fact(too_long):
+        def extra(kind, x, y):
+            if isinstance(x, Term) and same(x, Term("-", [NE, NS])) and kind in ("Lt", "LtE", "Gt", "GtE"):
+                return {"Lt": not too_long, "LtE": not too_long, "Gt": too_long, "GtE": too_long}[kind]
+            if isinstance(y, Term) and same(y, Term("-", [NE, NS])) and kind in ("Lt", "LtE", "Gt", "GtE"):
+                return {"Gt": not too_long, "GtE": not too_long, "Lt": too_long, "LtE": too_long}[kind]
+            return None
+
+        return extra
+
+    from ..strdom import TupV
+
+    bad = []
+    stubs = {"make_valid_orientation_interval": norm_stub}
+    try:
+        try:
+            evaluate(av, "__init__", [LO, HI], fresh(av), vals={"normalised_start": 0, "normalised_end": 1}, extra=length_fact(True), stubs=stubs)
+            bad.append("an interval spanning 2pi or more is accepted")
+        except _Raise:
+            pass
+        try:
+            evaluate(av, "__init__", [LO, HI], fresh(av), vals={"normalised_start": 1, "normalised_end": 0}, extra=length_fact(False), stubs=stubs)
+            bad.append("start > end accepted after normalisation")
+        except _Raise:
+            pass
+        o = fresh(av)
+        try:
+            evaluate(av, "__init__", [LO, HI], o, vals={"normalised_start": 0, "normalised_end": 1}, extra=length_fact(False), stubs=stubs)
+            if not (same(o.fields.get("_start"), NS) and same(o.fields.get("_end"), NE)):
+                bad.append("stores %s, %s instead of the normalised ends" % (show(o.fields.get("_start")), show(o.fields.get("_end"))))
+        except _Raise as x:
+            bad.append("a valid angle interval is rejected: %s" % x.what)
+        if not norm_calls or not all(same(list(c.values())[0], LO) and same(list(c.values())[1], HI) for c in norm_calls):
+            bad.append("make_valid_orientation_interval is not applied to (start, end)")
+    except Undecided as x:
+        raise AnalysisError("AngleInterval.__init__: %s" % x)
+    res.check("REJECT", "AngleInterval.__init__ normalises, bounds the length by 2pi and stores the normalised ends in order", not bad, mod, ainit, "AngleInterval.__init__: %s" % "; ".join(bad), "angle intervals are not brought into [-2pi, 2pi], may span 2pi or more, or skip the start <= end check", qualname="AngleInterval.__init__")
+    # make_valid_orientation_interval: on exit end <= 2pi and start >= -2pi (with start <= end this bounds both)
+    nf = mod.functions.get("make_valid_orientation_interval")
+    if nf is None:
+        raise AnalysisError("make_valid_orientation_interval missing")
+    res.check("REJECT", "make_valid_orientation_interval leaves end <= 2pi and start >= -2pi, shifting both ends alike", *normalise_rule(nf), mod, nf, "make_valid_orientation_interval exit conditions", "an interval reaching beyond -2pi or 2pi is not shifted back: constructing or shifting the angle interval raises", qualname="make_valid_orientation_interval")
     return {"class_invariant": "start, end in [-2pi, 2pi]; 0 <= end - start < 2pi"}
